@@ -38,7 +38,7 @@ def campaign(tier, seed):
             raise ToolError("harness failed: " + out[-2000:])
         hstat = json.loads(out.strip().splitlines()[-1])
         tv_out = st.path("tv.out")
-        tv = run_tlc("CompTrace", os.path.join(SPEC, "CompTrace.cfg"), tv_out, workers=4, env={"TRACE": trace}, timeout=6000)
+        tv = run_tlc_trace("CompTrace", os.path.join(SPEC, "CompTrace.cfg"), trace, tv_out, workers=3, chunk=30000, par=5, timeout=6000)
         if not tv["ok"]:
             raise ToolError("CompTrace did not complete: %s" % tv["error"])
         recs = []
